@@ -306,7 +306,86 @@ fn patch_info(font: &FontRef, abs: &AbsFont, src: &str, entry: usize) -> Result<
     Err(format!("entry {src}/{entry} is not offered (already applied?)"))
 }
 
+/// Glyph keyed patches that bring a glyf (short loca) or gvar (short offsets) table to totals around the 131070-byte reach
+/// of divided-by-two 16-bit offsets (IFTCff!TSizes).
+fn sizes_replay(path: &str, cat: &Value, ev: &mut Vec<Value>, rep: &mut Report) {
+    use incremental_font_transfer::patch_group::{PatchGroup, UriStatus};
+    let base = build_base(&cat["base"]);
+    let base_proj = project(&base.bytes, &base).expect("base projects");
+    fvcore::tlc_stream(path, &["SIZECASE"], |_, c| {
+        rep.evaluations += 1;
+        let kind = c["kind"].as_str().unwrap().to_string();
+        let total = c["total"].as_u64().unwrap() as usize;
+        let case = json!({"kind": "sizes-case", "case": c});
+        // glyph 1 is replaced; the other glyphs keep their (padded) data
+        let blobs_now: &Vec<Vec<u8>> = if kind == "glyf" { &base_proj.glyf } else { base_proj.gvar.as_ref().expect("base has gvar") };
+        let others: usize = blobs_now.iter().enumerate().filter(|(i, _)| *i != 1).map(|(_, b)| b.len() + b.len() % 2).sum();
+        if total < others || (total - others) % 2 == 1 {
+            return;
+        }
+        let new_len = total - others;
+        let data: Vec<u8> = (0..new_len).map(|i| 0x20 + (i % 90) as u8).collect();
+        let patch = glyph_keyed_patch(1, &glyph_patches_payload(&[1], &[(tag4(&kind), vec![data.clone()])], false), false);
+        let font = FontRef::new(&base.bytes).unwrap();
+        let r = guarded(|| {
+            // entry 1 of the IFT table (code point 0) is a glyph keyed entry with compatibility id 1
+            let def = AbsDef { cps: vec![0], feats: vec![], ds: vec![], fall: true, dall: true, inverted: false };
+            let group = PatchGroup::select_next_patches(font.clone(), &def.realise()).map_err(|e| format!("select: {e}"))?;
+            let uris: Vec<String> = group.uris().map(|s| s.to_string()).collect();
+            let mut status: HashMap<String, UriStatus> = uris.iter().map(|u| (u.clone(), UriStatus::Pending(patch.clone()))).collect();
+            let dec = FaultyDecoder { fail_at: 0, calls: Cell::new(0), kind: 0 };
+            let out = group.apply_next_patches_with_decoder(&mut status, &dec).map_err(|e| format!("{e:?}"));
+            let untouched = uris.iter().all(|u| matches!(status.get(u), Some(UriStatus::Pending(_))));
+            let applied = uris.iter().all(|u| status.get(u) == Some(&UriStatus::Applied));
+            Ok::<_, String>((out, untouched, applied, uris.len()))
+        });
+        match r {
+            Err(p) => rep.violation(&format!("applying a {kind} glyph keyed patch (total {total}) panicked: {p}"), case),
+            Ok(Err(e)) => rep.violation(&format!("sizes family: {e}"), json!({"kind": "tool"})),
+            Ok(Ok((Err(e), untouched, _, n))) => {
+                ev.push(json!({"op": "sizes", "kind": kind, "total": total, "ok": false, "long": false, "data_ok": false, "status_untouched": untouched, "marked": false, "uris": n, "error": e}));
+            }
+            Ok(Ok((Ok(out), _, applied, n))) => {
+                let (long, data_ok) = match project(&out, &base) {
+                    Err(e) => {
+                        rep.violation(&format!("{kind} glyph keyed patch (total {total}): the patched font is not sound: {e}"), case);
+                        (false, false)
+                    }
+                    Ok(p) => {
+                        let f2 = FontRef::new(&out).unwrap();
+                        let long = if kind == "glyf" {
+                            be16(f2.table_data(Tag::new(b"head")).unwrap().as_bytes(), 50) == Some(1)
+                        } else {
+                            be16(f2.table_data(Tag::new(b"gvar")).unwrap().as_bytes(), 14).map(|f| f & 1 == 1).unwrap_or(false)
+                        };
+                        let now: &Vec<Vec<u8>> = if kind == "glyf" { &p.glyf } else { p.gvar.as_ref().unwrap() };
+                        let mut ok = now.len() == blobs_now.len();
+                        for (i, b) in now.iter().enumerate() {
+                            ok &= if i == 1 { blob_eq(b, &data) } else { blobs_now.get(i).map(|x| blob_eq(b, x) || b == x).unwrap_or(false) };
+                        }
+                        // the table that was not patched is unchanged
+                        ok &= if kind == "glyf" { p.gvar == base_proj.gvar } else { p.glyf == base_proj.glyf };
+                        ok &= p.other == base_proj.other;
+                        (long, ok)
+                    }
+                };
+                ev.push(json!({"op": "sizes", "kind": kind, "total": total, "ok": true, "long": long, "data_ok": data_ok, "status_untouched": false, "marked": applied, "uris": n, "error": ""}));
+                rep.distinct += 1;
+            }
+        }
+    });
+}
+
 pub fn main(args: &[String]) {
+    if let Some(cases) = arg_after(args, "--size-cases") {
+        let cat: Value = serde_json::from_str(&std::fs::read_to_string(arg_after(args, "--catalogue").expect("--catalogue")).unwrap()).unwrap();
+        let mut rep = Report::default();
+        let mut ev = vec![];
+        sizes_replay(&cases, &cat, &mut ev, &mut rep);
+        rep.traces = ev.len() as u64;
+        fvcore::write_ndjson(&arg_after(args, "--out").expect("--out"), &ev);
+        rep.finish();
+    }
     if let Some(cases) = arg_after(args, "--cff-cases") {
         let mut rep = Report::default();
         let mut ev = vec![];
